@@ -1,5 +1,6 @@
 """C12 — Yule-Walker models are stable and match the data autocorrelation."""
 import numpy as np
+from props._loopir import loopir_tie, TRUSTED_LINE
 import vlib
 from vlib import cz, czl, tolq
 
@@ -12,7 +13,7 @@ LEVEL_TEXT = ("Coq theorems in an abstract ordered *-field (Gaussian rationals, 
               "unique solution attaining the minimum N*P, and lpc (real data) returns the same a with error P*N/(N-1). "
               "Tie: exact in-Coq correspondence of aryule / pyule.ar / lpc with the Gallina model on dyadic inputs (all norms the code "
               "accepts and rejects, both allow_singularity values, order >= N), and a property-directed search on the implementation.")
-TRUSTED = ["Coq 8.16.1 kernel + vm_compute (no native_compute)",
+TRUSTED = [TRUSTED_LINE, "Coq 8.16.1 kernel + vm_compute (no native_compute)",
            "aryule_stable_complex / aryule_stable_C only: the three standard-library axioms of the real numbers (sig_forall_dec, sig_not_dec, functional_extensionality_dep) via Coquelicot's C; every other theorem is axiom-free",
            "hand-written models coq/Model/Yule.v, Corr.v, Levinson.v, tied to yulewalker.py/correlation.py/levinson.py/lpc.py by the correspondence run only",
            "numpy.fft inside lpc is modelled by its exact-arithmetic specification (lag sums; transform length >= 2N-1), not verified",
@@ -239,6 +240,7 @@ def run(ctx):
     from spectrum import aryule, lpc, pyule
     rng = ctx.rng
     ctx.check_theorems('Properties/C12.v')
+    loopir_tie(ctx, ['LEVINSON', 'CORRELATION'])      # IR programs regenerated from the source vs the hand models: exact, zero tolerance
     # ---------------- correspondence: aryule (+ pyule attributes)
     cases = []; meta = []
     n = ctx.q(220, 2500); tries = 0
